@@ -17,6 +17,15 @@ impl core::fmt::Display for Xstr { #[verifier::external_body] fn fmt(&self, f: &
 impl TokenLocation {
 //@use lex.fns "impl fmt::Debug for TokenLocation"::fmt
 }
+// `str::is_char_boundary` / `&s[..end]` (through ArcStr's Deref<Target = str>): ASSUMED std - slicing panics unless `end`
+// is a character boundary inside the text
+#[verifier::external_body] fn verif_is_char_boundary(s: &Xstr, i: usize) -> (r: bool)
+    ensures r == (i <= blen(xtext(*s)) && is_boundary(xtext(*s), i as int))
+{ unimplemented!() }
+#[verifier::external_body] fn verif_str_prefix(s: &Xstr, end: usize) -> (r: &str)
+    requires end <= blen(xtext(*s)), is_boundary(xtext(*s), end as int)
+{ unimplemented!() }
+//@use lex.fns "impl fmt::Debug for Cell"::fmt#str_elided
 
 // ---- the lexer state
 //@type src/lex.rs struct Lex
